@@ -31,7 +31,7 @@ P = "C15"
 STAGES = ("h1", "h2-alpn", "h2-prior", "socks", "socks-auth", "connect", "forward")
 
 
-def target(stage: str, rounds, seg=None, sync=True, method="GET", body=None, read_mode="request"):
+def target(stage: str, rounds, seg=None, sync=True, method="GET", body=None, read_mode="request", read=None):
     """Run one request against the replayed rounds. Returns (outcome dict, world)."""
     routes = {}
     pool_cfg = {}
@@ -58,6 +58,10 @@ def target(stage: str, rounds, seg=None, sync=True, method="GET", body=None, rea
     world.seg_everything = True
     pool = build_pool(world, pool_cfg, sync=sync)
     spec = {"method": method, "url": url, "api": read_mode}
+    if read is not None:
+        # a caller that streams the response and lets go of it early (after `read` parts): whatever close() does with the rest must not raise
+        # anything but a documented exception either
+        spec.update(api="stream", read=read)
     if body is not None:
         spec["content"] = body
     if sync:
@@ -132,6 +136,14 @@ EOLS = [b"\r\n", b"\r\n", b"\r\n", b"\n", b"\r", b"\r\r\n", b"\n\r"]
 
 @st.composite
 def h1_cases(draw):
+    if draw(st.integers(0, 3)) == 0:
+        # a well-formed head followed by a chunked body whose defect comes AFTER the first good chunk (all in one delivery): the interesting callers
+        # are the ones that stop reading early
+        lines = [b"HTTP/1.1 200 OK", b"Transfer-Encoding: chunked"] + draw(st.lists(st.sampled_from([b"X-A: b", b"Server: sim", b"Content-Type: text/plain"]), max_size=2))
+        body = b"5\r\nhello\r\n" + draw(st.sampled_from([b"ZZZ\r\nxx\r\n0\r\n\r\n", b"5\r\nworldXX0\r\n\r\n", b"-1\r\n\r\n", b"5\r\nwor", b"0\r\nBad Trailer\r\n\r\n",
+                                                          b"FFFFFFFFFFFFFFFFFFFF\r\nx", b"5 5\r\nworld\r\n0\r\n\r\n", b"\r\n\r\n", b"0\r\n\r\n" + b"junk after the message"]))
+        return {"stage": draw(st.sampled_from(["h1", "forward"])), "rounds": [b"", b"\r\n".join(lines) + b"\r\n\r\n" + body], "seg": draw(st.sampled_from([None, None, None, [200]])),
+                "method": draw(st.sampled_from(["GET", "POST"])), "sync": draw(st.booleans()), "read": draw(st.sampled_from([None, 0, 0, 1, 1, 2]))}
     n_resp = draw(st.integers(1, 2))
     wire = b""
     for _ in range(n_resp):
@@ -147,7 +159,7 @@ def h1_cases(draw):
         cut = draw(st.integers(0, len(wire)))
         wire = wire[:cut]
     return {"stage": draw(st.sampled_from(["h1", "h1", "forward"])), "rounds": [b"", wire], "seg": draw(st.sampled_from([None, None, [1], [3, 50], [7]])),
-            "method": draw(st.sampled_from(["GET", "GET", "HEAD", "POST"])), "sync": draw(st.booleans())}
+            "method": draw(st.sampled_from(["GET", "GET", "HEAD", "POST"])), "sync": draw(st.booleans()), "read": draw(st.sampled_from([None, None, None, 0, 1]))}
 
 
 # ----------------------------------------------------------------------------- (1b) HTTP/2 frames of any type
@@ -226,7 +238,7 @@ def h2_cases(draw):
     if draw(st.integers(0, 3)) == 0:
         rounds.append(b"".join(draw(st.lists(h2_frames(), min_size=1, max_size=3))))
     return {"stage": draw(st.sampled_from(["h2-alpn", "h2-prior"])), "rounds": rounds, "seg": draw(st.sampled_from([None, None, [1], [9], [5, 100]])),
-            "method": draw(st.sampled_from(["GET", "GET", "POST"])), "sync": draw(st.booleans())}
+            "method": draw(st.sampled_from(["GET", "GET", "POST"])), "sync": draw(st.booleans()), "read": draw(st.sampled_from([None, None, None, 0, 1]))}
 
 
 # ----------------------------------------------------------------------------- (1c) SOCKS5 and CONNECT replies
@@ -278,14 +290,14 @@ def grammar_cases():
 def execute_grammar(case) -> Outcome:
     stage = case["stage"]
     body = b"abc" if case.get("method") == "POST" else None
-    out, world = target(stage, case["rounds"], seg=case.get("seg"), sync=case.get("sync", True), method=case.get("method", "GET"), body=body)
-    what = f"[{'sync' if case.get('sync', True) else 'async'}] stage {stage}, peer bytes {b''.join(case['rounds'])[:120]!r}{'...' if sum(map(len, case['rounds'])) > 120 else ''}"
+    out, world = target(stage, case["rounds"], seg=case.get("seg"), sync=case.get("sync", True), method=case.get("method", "GET"), body=body, read=case.get("read"))
+    what = f"[{'sync' if case.get('sync', True) else 'async'}] stage {stage}{'' if case.get('read') is None else ', response closed after ' + str(case['read']) + ' part(s)'}, peer bytes {b''.join(case['rounds'])[:120]!r}{'...' if sum(map(len, case['rounds'])) > 120 else ''}"
     vio = judge(stage, out, what)
     consumed = units_consumed(world)
     outcome = "success" if out["exc"] is None else out["exc"]["name"]
-    tags = ["stage-" + stage.split("-")[0], "out-" + outcome]
+    tags = ["stage-" + stage.split("-")[0], "out-" + outcome] + (["closed-early"] if case.get("read") is not None else [])
     nontrivial = consumed >= 9 and not (out["exc"] is None and False)
-    return Outcome(vio, tags, nontrivial, key=[stage, case["rounds"], case.get("seg"), case.get("method")],
+    return Outcome(vio, tags, nontrivial, key=[stage, case["rounds"], case.get("seg"), case.get("method"), case.get("read")],
                    info={"outcome": outcome, "bytes_consumed": consumed, "site": out["exc"] and out["exc"].get("inner")})
 
 
@@ -463,7 +475,8 @@ def mutation_cases(draw):
     for _ in range(draw(st.integers(1, 3))):
         muts.append([draw(st.sampled_from(["flip", "flip", "delete", "dup", "insert", "truncate", "set", "swap"])), draw(st.floats(0, 1, allow_nan=False, width=32)),
                      draw(st.integers(1, 12)), draw(st.integers(0, 255))])
-    return {"key": key, "mutations": muts, "seg": draw(st.sampled_from([None, None, [1], [9, 4]])), "sync": draw(st.booleans())}
+    return {"key": key, "mutations": muts, "seg": draw(st.sampled_from([None, None, [1], [9, 4]])), "sync": draw(st.booleans()),
+            "read": draw(st.sampled_from([None, None, None, 0, 1]))}
 
 
 def mutate(data: bytes, muts) -> bytes:
@@ -504,12 +517,12 @@ def execute_mutation(case) -> Outcome:
         rounds[-1] += m[pos:]
     else:
         rounds = [b"", mutate(conv, case["mutations"])]
-    out, world = target(stage, rounds, seg=case.get("seg"), sync=case.get("sync", True))
-    what = f"[{'sync' if case.get('sync', True) else 'async'}] {case['key']} mutated by {case['mutations']}"
+    out, world = target(stage, rounds, seg=case.get("seg"), sync=case.get("sync", True), read=case.get("read"))
+    what = f"[{'sync' if case.get('sync', True) else 'async'}] {case['key']} mutated by {case['mutations']}{'' if case.get('read') is None else ', response closed after ' + str(case['read']) + ' part(s)'}"
     vio = judge(stage, out, what)
     outcome = "success" if out["exc"] is None else out["exc"]["name"]
     tags = ["mut-" + stage.split("-")[0], "out-" + outcome]
-    return Outcome(vio, tags, units_consumed(world) >= 9, key=[case["key"], case["mutations"], case.get("seg")],
+    return Outcome(vio, tags, units_consumed(world) >= 9, key=[case["key"], case["mutations"], case.get("seg"), case.get("read")],
                    info={"outcome": outcome, "site": out["exc"] and out["exc"].get("inner")})
 
 
